@@ -41,7 +41,9 @@ Record world := {
   classes : list (ustring * schema);       (* Python class -> _properties in order *)
   registry : list (ustring * ustring);     (* "2.1/objects/identity" -> class *)
   det_id : list ustring;                   (* 2.1 observable classes (deterministic id written into _inner) *)
-  defaults : list (ustring * list (ustring * atom))   (* class -> properties with a `default` (all immutable values) *)
+  defaults : list (ustring * list (ustring * atom));  (* class -> properties with a `default` (all immutable values) *)
+  defn_classes : list (ustring * list (ustring * ustring))
+     (* MarkingDefinition classes -> OBJ_MAP_MARKING (definition_type -> marking class) *)
 }.
 
 Fixpoint lookup {A : Type} (k : ustring) (m : list (ustring * A)) : option A :=
@@ -284,11 +286,7 @@ Section Interp.
         end
     end.
 
-  Definition construct (c : ustring) (kw : val) (h : heap) : heap * res :=
-    match lookup c (classes W), mapping_entries h kw with
-    | None, _ => (h, RExc "UnknownClass")
-    | _, None => (h, RExc "TypeError")
-    | Some sch, Some m =>
+  Definition construct_body (c : ustring) (sch : schema) (m : list (ustring * val)) (h : heap) : heap * res :=
       (* the property order of the class first, then the remaining keywords *)
       let known := flat_map (fun nk => match assoc (fst nk) m with Some v => [(fst nk, v)] | None => [] end) sch in
       let extra := filter (fun kv => match lookup (fst kv) sch with Some _ => false | None => true end) m in
@@ -310,7 +308,34 @@ Section Interp.
         let fields := (u "_inner", VR s) ::
                       match assoc (u "_valid_refs") m with Some r => [(u "_valid_refs", r)] | None => [] end in
         let (h4, o) := alloc h3 (NObj c fields) in
-        (h4, RVal (VR o)))
+        (h4, RVal (VR o))).
+
+  (* MarkingDefinition.__init__ (v20/v21 common.py): when both definition_type and
+     definition are given and the definition is not yet an instance of the marking class,
+     `defn = _get_dict(kwargs['definition']); kwargs['definition'] = marking_type( **defn )`
+     -- kwargs is the call's own keyword dict, the caller's mapping is only read *)
+  Definition construct (c : ustring) (kw : val) (h : heap) : heap * res :=
+    match lookup c (classes W), mapping_entries h kw with
+    | None, _ => (h, RExc "UnknownClass")
+    | _, None => (h, RExc "TypeError")
+    | Some sch, Some m =>
+      match lookup c (defn_classes W) with
+      | None => construct_body c sch m h
+      | Some table =>
+        match assoc (u "definition_type") m, assoc (u "definition") m with
+        | Some dt, Some dv =>
+          match match dt with VA (AStr s) => lookup s table | _ => None end with
+          | None => (h, RExc "ValueError")
+          | Some mc =>
+            if match class_of h dv with Some c' => ustr_eqb c' mc | None => false end
+            then construct_body c sch m h
+            else bindv (get_dict dv h) (fun d h0 =>
+                 bindv (rec (QConstruct mc d) h0) (fun o h1 =>
+                   construct_body c sch (assoc_set (u "definition") o m) h1))
+          end
+        | _, _ => construct_body c sch m h
+        end
+      end
     end.
 
   (* parsing.dict_to_stix2 *)
